@@ -3,10 +3,13 @@ mod c05;
 mod schema;
 mod uni;
 mod c08;
+mod c08lang;
 mod c09;
 mod seed;
 mod c10;
 mod c11;
+mod c18;
+mod e2;
 mod corpus;
 mod front;
 mod genr;
@@ -26,7 +29,13 @@ fn checks_for(property: &str, tier: Tier) -> Vec<Box<dyn Check>> {
         | "C02" => vec![Box::new(c02::Universe::new(c02::Mode::Agreement, tier))],
         | "C03" => vec![Box::new(c02::Universe::new(c02::Mode::Acceptance, tier))],
         | "C05" => c05::checks(),
-        | "C08" => c08::checks(tier),
+        | "C18" => vec![Box::new(c18::Lowered::new(c18::Mode::Lowering, tier))],
+        | "C19" => vec![Box::new(c18::Lowered::new(c18::Mode::Preservation, tier))],
+        | "C08" => {
+            let mut v = c08::checks(tier);
+            v.push(Box::new(c08lang::Blocks::new(tier)));
+            v
+        }
         | "C09" => c09::checks(tier),
         | "C10" => c10::checks(tier),
         | "C11" => c11::checks(tier),
@@ -62,6 +71,15 @@ fn find_check(name: &str, tier: Tier) -> Option<Box<dyn Check>> {
 }
 
 fn main() {
+    // run everything on a thread with a very large stack: subject values (and their drops) can nest deeply
+    let h = std::thread::Builder::new().stack_size(4 << 30).spawn(real_main).expect("spawn main thread");
+    match h.join() {
+        | Ok(()) => {}
+        | Err(_) => std::process::exit(101),
+    }
+}
+
+fn real_main() {
     let args: Vec<String> = std::env::args().collect();
     subject::install_quiet_panic_hook();
     match args.get(1).map(String::as_str) {
